@@ -1,1 +1,6 @@
 import CGV.Props.C04
+#print axioms CGV.C04.C04_read_chain
+#print axioms CGV.C04.matches_chain
+#print axioms CGV.C04.fold_tail
+#print axioms CGV.stepNode_plain
+#print axioms CGV.C04.renderChain_supported
